@@ -142,7 +142,7 @@ func RunC11(c *Ctx) error {
 			cfgs = append(cfgs, &cfg{gi: gi, flags: flags})
 		}
 	}
-	identity := simrt.Plan{Map: simrt.MapPlan{Policy: "identity"}, Clock: 1700000000, Pid: 4242, TickBudget: 5e8}
+	identity := simrt.Plan{Map: simrt.MapPlan{Policy: "identity"}, Clock: 1700000000, Pid: 4242, TickBudget: 4e9}
 	err = c.ShardedDo(len(cfgs), func(i int) int { return i }, func(w, i int) error {
 		cf := cfgs[i]
 		gc := cases[cf.gi]
@@ -193,7 +193,7 @@ func RunC11(c *Ctx) error {
 		base := engine.Spec{GrammarID: gc.ID, GrammarText: gc.Text, GrammarFile: gc.File, Flags: cf.flags}
 		r := prng.Sub(c.Seed, "c11/"+gc.ID+"/"+strings.Join(cf.flags, ","), ci)
 		addPlan := func(label string, mp simrt.MapPlan, rerun bool) {
-			p := simrt.Plan{Map: mp, Clock: 1700000000 + int64(r.Intn(1<<30)), Rand: r.U64(), Pid: 2 + r.Intn(60000), Host: fmt.Sprintf("h%d", r.Intn(100)), TickBudget: 5e8}
+			p := simrt.Plan{Map: mp, Clock: 1700000000 + int64(r.Intn(1<<30)), Rand: r.U64(), Pid: 2 + r.Intn(60000), Host: fmt.Sprintf("h%d", r.Intn(100)), TickBudget: 4e9}
 			// goroutine schedule and CPU count (dormant while gocc has no goroutines)
 			p.CPUs = []int{1, 2, 4, 16}[r.Intn(4)]
 			switch r.Intn(4) {
@@ -477,7 +477,7 @@ func c11Report(c *Ctx, g *sut.Gocc, w *engine.Worker, j *c11Job, ref *engine.Res
 	culprit := ""
 	// Is the output unstable even when every simulated choice is the reference's?
 	{
-		p := simrt.Plan{Map: simrt.MapPlan{Policy: "identity"}, Clock: 1700000000, Pid: 4242, TickBudget: 5e8}
+		p := simrt.Plan{Map: simrt.MapPlan{Policy: "identity"}, Clock: 1700000000, Pid: 4242, TickBudget: 4e9}
 		s0 := spec
 		s0.Plan = &p
 		s0.Pre = ""
@@ -571,7 +571,7 @@ func c11Replay1(c *Ctx, g *sut.Gocc, w *engine.Worker) error {
 	if spec.Plan == nil {
 		bin = g.Real
 	} else {
-		p := simrt.Plan{Map: simrt.MapPlan{Policy: "identity"}, Clock: 1700000000, Pid: 4242, TickBudget: 5e8}
+		p := simrt.Plan{Map: simrt.MapPlan{Policy: "identity"}, Clock: 1700000000, Pid: 4242, TickBudget: 4e9}
 		refSpec.Plan = &p
 	}
 	refSpec.GOMAXPROCS = 0
